@@ -19,7 +19,9 @@ LEVEL_TEXT = (
     "arithmetic/logical >>) then the folder's evaluation returns exactly v; every constant the folder creates lies in its type's range (also for "
     "undefined operands); integer casts fold to the wrapped value; the same for arbitrarily nested constant expressions (induction over the "
     "tree, as eval_const recurses); the chain rewrites (y+c1)+c2 -> y+c3 and (y-c1)-c2 -> y-c3 produce an in-range c3 and the same run-time "
-    "value for every y, and c3 is the only in-range constant with that property; operations that are undefined for their constant operands "
+    "value for every y, and c3 is the only in-range constant with that property; the matcher of on_block is characterised operand position by "
+    "operand position (chain_matcher_exact; inner/outer constant on the left are left alone) and EVERY rewrite it accepts, and the whole pass over a "
+    "single-block function (passTree), preserves the run-time value for all parameter values (rewrite_sound, pass_preserves_value); operations that are undefined for their constant operands "
     "(x % 0, negative shift count) are left unfolded and the pass raises nothing on any well-formed integer constant tree. The operator table and the integer type table of the model are "
     "re-checked (decide) against a dump of the live ppci objects on every run; the leaf helpers correct/cast/irem are translated from the source "
     "text of the checked tree to Lean (Gen.Py_constantfolding, T1 py2lean) on every run and proved equal to the hand model for every value and "
@@ -39,7 +41,10 @@ TECHNIQUE = ("Lean 4 proof (case split over the 8 types, omega on the wrap arith
              "equality regenerated definition = hand model + differential correspondence of the real pass with the model")
 RULE = ("binop cases: 8-bit types every operand pair per folder operator (thorough; quick: ~45 left operands x all 256 right operands), "
         "16/32/64-bit: boundary set {min,max,min+1,max-1,0,+-1,+-2^k,+-2^k+-1} x boundary/random + small divisors, shift counts over the whole "
-        "range 0..bits-1 plus out-of-range counts; casts between all 64 ordered type pairs; chains (y op c1) op c2 incl. mixed operators; nested "
+        "range 0..bits-1 plus out-of-range counts; casts between all 64 ordered type pairs; chains (y op c1) op c2 incl. mixed operators; every chain "
+        "SHAPE (operators {+,-} x {+,-} and non-chain operators, inner/outer constant left/right/both/neither, second parameter, length-3 chains, the chain "
+        "value used twice, chains through casts) - each function the real pass changes is read back whole and compared before/after under Spec for all y "
+        "(8-bit) or boundary+random y; nested "
         "constant trees to depth 3. distinct = distinct (tree); non-trivial = exact result outside the type's range (wrap needed), a negative "
         "operand of % or >>, an undefined operation, a value-changing cast, or a chain whose c1+c2 needs wrapping")
 TRUSTED = [
@@ -48,7 +53,7 @@ TRUSTED = [
     "hand model Model.ConstFold of ppci/opt/constantfolding.py (Python % = Int.fmod, << = *2^n, >> = floor /2^n, bit_length = log2+1), tied by differential run of the real pass on every check",
     "Gen.ConstFold: dump of ConstantFolder().ops (closure introspection of enhance()), ir.value_types, ir.Binop.ops by harness/c38.py regen()",
     "Spec.IRArith / Spec.ConstExpr: run-time integer semantics of the IR (DESIGN S2); ppci's own ir2py run-time helpers (irem, ishr) follow the same reading",
-    "the tree view of the SSA graph (operands followed through .a/.b/.src), and replace_by/insert_instruction doing what their names say",
+    "the tree view of the SSA graph (operands followed through .a/.b/.src); the harness reads the whole function back from the Return value after the pass, so replace_by/insert_instruction/re-linking are observed, not assumed",
 ]
 ASSUMPTIONS = [
     "operands of an instruction have the instruction's type (enforced by ir.Binop.__init__) and Const values are ints in their type's range",
